@@ -25,10 +25,10 @@ pub fn build_config() -> String {
     }
 }
 
-const FAULT_KINDS: [&str; 17] = [
+const FAULT_KINDS: [&str; 19] = [
     "W_ERR_TRANSIENT", "W_ERR_PERMANENT", "R_REORDER", "R_DROP", "R_UNKNOWN", "R_DUP", "R_ERR", "R_TRUNC",
     "BYTES_W_SHORT", "BYTES_W_EINTR", "BYTES_W_IOERR_TRANSIENT", "BYTES_W_IOERR_PERMANENT", "BYTES_R_SHORT",
-    "BYTES_R_EINTR", "BYTES_R_IOERR", "BYTES_R_TRUNC", "BYTES_R_FLIP",
+    "BYTES_R_EINTR", "BYTES_R_IOERR", "BYTES_R_TRUNC", "BYTES_R_FLIP", "W_PANIC", "R_PANIC",
 ];
 
 /// One run of either lane.
@@ -327,7 +327,8 @@ impl Agg {
             self.fired[match f.kind {
                 WKind::Transient => 0,
                 WKind::Permanent => 1,
-            } + if is_json { 10 } else { 0 }] += 1;
+                WKind::Panic => 17,
+            } + if is_json && f.kind != WKind::Panic { 10 } else { 0 }] += 1;
             if e.is_dec && !is_json {
                 use crate::store::WStep;
                 // (the top-level record may legitimately be written through serialize_map)
@@ -358,7 +359,7 @@ impl Agg {
             }
             seen_perm |= f.permanent;
             nf += 1;
-            self.fired[if f.permanent { 7 } else { 6 }] += 1;
+            self.fired[if f.panic { 18 } else if f.permanent { 7 } else { 6 }] += 1;
             if e.is_dec && keyed {
                 if f.top_done & all3 != all3 {
                     self.probes[P_RERR_BEFORE] += 1;
